@@ -82,13 +82,15 @@ CLAIMS = {
              'service_time start/return/step. Leastness for numeric workloads is not decided.',
         ref='7/C08'),
     'C19': dict(
-        technique='sibling comparison: term identity under substitution; signature/use analysis for supply-parametricity',
+        technique='sibling comparison: term identity under substitution; signature/use analysis for supply-parametricity; linear entailment for the supply reductions',
         text='Each reduction named by C19 for FP and EDF (LP last:=1,B:=0 = P; LP last:=C = NP; LP last:=1 = FNP; EDF with all '
              'segments 1 resp. = WCET) is decided as an identity of the recovered canonical terms (BW, OFF, result, search '
              'space) under substitution. Every ROS 2 entry point takes its supply as a type parameter bounded by SupplyBound '
-             'only and uses it only through provided_service/service_time/search*. The numeric agreements (supply '
-             'equivalences as functions, NP-EDF max = FIFO, event source = FIFO) are not decided.',
-        ref='7/C19'),
+             'only and uses it only through provided_service/service_time/search* (PARAM); Periodic[budget := period] and '
+             'Constrained[budget := deadline := period] are PROVED to be the same two functions as Dedicated (SUP-SIB, linear '
+             'entailment over guarded cases), so every ROS 2 analysis returns the same result for the three supplies. The remaining '
+             'numeric agreements (NP-EDF max = FIFO, event source = FIFO) are not decided.',
+        ref='7/C19 and 21'),
     'C20': dict(
         technique='site enumeration with path-condition discharge (linear implication over typed HIR), loop/iterator termination patterns, cross-profile term comparison',
         text='SITE: every raw subtraction, index, unwrap/expect, division and reachable panic/assert of /repo, enumerated in a '
@@ -102,32 +104,42 @@ CLAIMS = {
              'fixtures crate run every time. Not decided: that the vetted invariants hold; floating point.',
         ref='7/C20'),
     'C09': dict(
-        technique='canonical function summaries vs reviewed closed-form reference terms; one-iteration loop summary of the generic inverse',
-        text='Narrow claim: the closed-form SBFs and inverses of Periodic, Constrained and Dedicated, the constructor '
-             'preconditions and the forwarding impls compute exactly the reviewed reference terms (Shin & Lee periodic resource '
-             'model; deadline-reduced blackout), and the default jump-ahead service_time starts at demand, returns exactly '
-             'under supply >= demand and advances by the missing service. Any edit to these functions is reported. NOT decided: '
-             'that the closed forms are the minimum over all budget placements, that service_time is the exact pseudo-inverse '
-             'for every demand, or the equalities Constrained(D=P) = Periodic and Periodic(B=P) = Dedicated as functions -- '
-             'those quantify over values and no static argument in reach bounds them.',
-        ref='9 and 15'),
+        technique='linear entailment over guarded cases (polyhedral reasoning with quotient/remainder facts) for the algebraic laws; canonical function summaries vs reviewed references; one-iteration loop summary of the generic inverse',
+        text='(1) The closed-form SBFs and inverses of Periodic, Constrained and Dedicated, the constructor preconditions and the '
+             'forwarding impls compute the reviewed reference terms (Shin & Lee periodic resource model; deadline-reduced '
+             'blackout); the default jump-ahead service_time starts at demand, returns exactly under supply >= demand and '
+             'advances by the missing service.'' (2) Laws PROVED of the current code for all parameters and arguments by linear entailment over the guarded cases of each function (sa/linarith.py: Fourier-Motzkin on the case polyhedra with quotient/remainder facts; nothing is run): '
+             'provided_service(0) = 0 and service_time(0) = 0; 0 <= provided_service(d+1) - provided_service(d) <= 1; for d >= 1 '
+             'provided_service(service_time(d)) >= d and provided_service(service_time(d) - 1) <= d - 1 (service_time is the exact '
+             'inverse of the specialised implementations); Constrained[deadline := period] = Periodic, Periodic[budget := period] '
+             '= Dedicated, Constrained[budget := deadline := period] = Dedicated for both methods -- under the assumptions the '
+             'constructors assert (read off their panic conditions) and budget >= 1. NOT decided: that the closed forms are the '
+             'minimum over all budget placements (a statement about the scheduling model; reviewed reference only).',
+        ref='21, 9 and 15'),
     'C10': dict(
-        technique='canonical function summaries vs reviewed reference terms; zero/jitter/delegation clauses on terms',
-        text='Arrival models: each number_arrivals / clone_with_jitter / helper is summarised as a canonical term and compared '
+        technique='canonical function summaries vs reviewed reference terms; zero/jitter/delegation clauses on terms; linear entailment over guarded cases for the closed-form models',
+        text='(1) Arrival models: each number_arrivals / clone_with_jitter / helper is summarised as a canonical term and compared '
              'with a reviewed reference (ceil((delta+J)/T) with the delta=0 guard, delta-min lookup with whole-prefix '
              'repetition, prefix lookup, pointwise sums, forwards); every implementation of an ArrivalBound method must be in '
              'the table (new overrides are flagged). Separately: ZERO (0 at delta=0 by an accepted form), JIT (existing + '
              'added jitter / fresh Propagated / same jitter to all components), JIT-WINDOW (count over delta + jitter), DELEG '
-             '(sum over every component, no adaptor). Not decided: that the counts bound real event sequences.',
-        ref='7/C10'),
+             '(sum over every component, no adaptor).'' (2) Laws PROVED of the current code for all parameters and arguments by linear entailment over the guarded cases of each function (sa/linarith.py: Fourier-Motzkin on the case polyhedra with quotient/remainder facts; nothing is run): '
+             'for Periodic and Sporadic number_arrivals(0) = 0, number_arrivals(d+1) >= number_arrivals(d), and for d >= 1 '
+             'number_arrivals(d) is the least n with n*T >= d + J (= ceil((d+J)/T): attained, sub-additive). Not decided: that '
+             'the table-driven models (Curve, ArrivalCurvePrefix, Poisson) bound real event sequences.',
+        ref='7/C10 and 21'),
     'C11': dict(
-        technique='canonical iterator terms vs reviewed references; lower-bound, seam-guard, merge/dedup and conversion clauses',
-        text='Every steps_iter implementation (arrival and request bounds, default brute force, custom iterators with their '
+        technique='canonical iterator terms vs reviewed references; lower-bound, seam-guard, merge/dedup and conversion clauses; linear entailment for the closed-form models',
+        text='(1) Every steps_iter implementation (arrival and request bounds, default brute force, custom iterators with their '
              'next/advance loops as one-iteration summaries) is compared with a reviewed reference; no zero item '
              '(STEP-NONZERO: today it reports ArrivalCurvePrefix::steps_iter, a known finding); Sporadic/Propagated tails '
              'keep exactly the shifted values >= 2 over the same jitter; composites are dedup(kmerge/merge(all components)); '
-             'step_offsets maps delta to delta-1. Not decided: coincidence with the increase points for given parameters.',
-        ref='7/C11'),
+             'step_offsets maps delta to delta-1.'' (2) Laws PROVED of the current code for all parameters and arguments by linear entailment over the guarded cases of each function (sa/linarith.py: Fourier-Motzkin on the case polyhedra with quotient/remainder facts; nothing is run): '
+             'for Periodic and Sporadic steps_iter yields exactly the points of increase of number_arrivals: every yielded T*j + c '
+             '(and the leading 1) is >= 1 and an increase; every d with number_arrivals(d-1) < number_arrivals(d) is T*j + c for '
+             'j = (d - c)/T, in range and passing the filter; strictly increasing. Not decided: coincidence with the increase '
+             'points for table-driven and composite bounds (shape clauses only).',
+        ref='7/C11 and 21'),
     'C12': dict(
         technique='one-iteration loop summaries and value terms vs reviewed references; sliding-window shape rule',
         text='from_trace (whole window scanned newest-first before the push, eviction iff len > prefix), '
@@ -146,13 +158,17 @@ CLAIMS = {
              'the on-demand steps iterator. Not decided: conservativeness against event sequences.',
         ref='7/C13'),
     'C14': dict(
-        technique='reference summaries incl. one-iteration loop summaries; sliding-window shape; borrow analysis + compile-fail witnesses',
-        text='Cost models: cost_of_jobs / job_cost_iter / least_wcet of Scalar, Multiframe, Curve, ExtrapolatingCurve and '
+        technique='reference summaries incl. one-iteration loop summaries; sliding-window shape; borrow analysis + compile-fail witnesses; shape + linear-entailment laws relating the three methods of each cost model',
+        text='(1) Cost models: cost_of_jobs / job_cost_iter / least_wcet of Scalar, Multiframe, Curve, ExtrapolatingCurve and '
              'the trait defaults compared with reviewed references (sum of first n items, successive differences, least '
              'increment over 1..min(len,n)); from_trace scans the whole window newest-first after push/evict; '
              'extrapolate_next is min over k in 0..=n/2; cache discipline as in C13 for wcet::ExtrapolatingCurve with '
-             '!Send/!Sync witnesses and extrapolate(n+1) before cost_of_jobs(n). Not decided: domination beyond the prefix.',
-        ref='7/C14'),
+             '!Send/!Sync witnesses and extrapolate(n+1) before cost_of_jobs(n). (2) Decided per implementation, for all n: '
+             'cost_of_jobs(0) = 0; cost_of_jobs(n) = sum of the first n items of job_cost_iter (default definition / repeat(c) with '
+             'c*n / items are the telescoping differences of cost_of_jobs); least_wcet(n) <= each of the first n items (default / '
+             'Scalar by entailment / Multiframe cycle / table-driven on the recorded prefix, where cost_of_jobs(n) = table[n-1] is '
+             'proved with index congruence). Not decided: domination beyond the prefix; monotonicity of a user-supplied table.',
+        ref='7/C14 and 21'),
     'C15': dict(
         technique='expression-tree / loop-summary comparison with the documented formula; loop-termination pattern; zero guard',
         text='Narrow claim: arrival_probability is e^-m * m^k / k! with m = rate*delta exactly as documented (expression tree; '
@@ -163,13 +179,15 @@ CLAIMS = {
              'returned value is the (1-epsilon) quantile, monotonicity in delta, any floating-point accuracy.',
         ref='9 and 15'),
     'C16': dict(
-        technique='canonical terms vs reviewed references; delegation-form rule; inventory of trait-method implementations',
+        technique='canonical terms vs reviewed references; delegation-form rule; inventory of trait-method implementations; definitional-shape laws',
         text='RBF = cost_of_jobs(number_arrivals(delta)), job_cost_iter takes number_arrivals(delta) items, '
-             'least_wcet_in_interval composes likewise; Aggregate/Slice: sum / min(default 0) / k-merge over every component '
-             'with arguments passed through; default service_needed_by_n_jobs = sorted->rev->take(max_jobs)->sum; auto_impl '
-             'forwards; any new override of a RequestBound method is flagged as unreviewed. Not decided: numeric relations '
-             'for given models.',
-        ref='7/C16'),
+             'least_wcet_in_interval composes likewise, all over the one N = number_arrivals(delta) (DEMAND-RBF); Aggregate/Slice: '
+             'sum / min(default 0) over every component with arguments passed through, job_cost_iter merges the components\' items '
+             'over the same collection (DEMAND-AGG); default service_needed = sum(job_cost_iter), default service_needed_by_n_jobs = '
+             'sorted->rev->take(max_jobs)->sum and nobody overrides it (DEMAND-DEF) -- from which, with C14\'s COST-SUM, the relations '
+             'the property states follow; auto_impl forwards; any new override of a RequestBound method is flagged as unreviewed. '
+             'Not decided: anything about user-supplied models beyond the trait axioms.',
+        ref='7/C16 and 21'),
     'C17': dict(
         technique='variance (monotonicity) type system over canonical terms + non-interference of the limit parameter',
         text='Every closure that reaches fixed_point::search* in the nine dedicated-processor analyses and the ROS 2 analyses is '
